@@ -1,5 +1,10 @@
 JOBS = [
- dict(name="errq.SCPI_ResultError.bounded", props=["C18", "C01"], kind="B",
+ dict(name="errq.SCPI_ResultError.small", props=["C18", "C01"], kind="B",
+      bound="limit lowered from 255 to 12 (redefined in the harness), text <= 7 bytes over {a, \"} at every position, 3 codes, with/without text; unwinding assertions on",
+      harness="h_errq.c", entry="h_result_error", contracts=["common.h"], defines=["LIM=12", "TXT=7"], loops=False,
+      cbmc_flags=["--unwind", "26", "--unwinding-assertions"], timeout=3000, cost=60, mem_gb=24,
+      what="real SCPI_ResultError: escaping, limit, late cut, prefix property, item accounting"),
+ dict(name="errq.SCPI_ResultError.bounded", tier="thorough", props=["C18", "C01"], kind="B",
       bound="limit lowered from 255 to 20 (redefined in the harness), text <= 14 bytes over {a, \"} at every position, 3 codes, with/without text; unwinding assertions on",
       harness="h_errq.c", entry="h_result_error", contracts=["common.h"], defines=["LIM=20", "TXT=14"], loops=False,
       cbmc_flags=["--unwind", "42", "--unwinding-assertions"], timeout=3000, cost=60, mem_gb=24,
